@@ -123,8 +123,8 @@ func runC17Core(c *Ctx, withBackoff bool) {
 	// per-endpoint call (a higher-order tryEndpoints(endpoints, post)): the loop rules are read in that function, the
 	// attempt being the call of its function parameter
 	loopFn := sign
-	var att *ssa.Call       // the attempt inside the loop
-	var loopSite *ssa.Call  // Sign's call of the loop function (callback form)
+	var att *ssa.Call      // the attempt inside the loop
+	var loopSite *ssa.Call // Sign's call of the loop function (callback form)
 	var attClo *ssa.Function
 	if perCall == nil {
 		for _, ins := range instrsOf(sign) {
@@ -356,7 +356,16 @@ func runC17Core(c *Ctx, withBackoff bool) {
 	// R2: may-nil returns need the fact err == nil of a per-endpoint call
 	errRes := errorResultIndex(loopFn)
 	for _, r := range liveReturns(loopFn) {
-		for _, lf := range w.Leaves(r.Results[errRes], r) {
+		leaves := w.Leaves(r.Results[errRes], r)
+		// behind a guard that refuses an empty endpoint list the first attempt certainly runs: the initial value of
+		// the loop-carried error cannot be what is returned at the loop's exit
+		if vals, preds, dropped := w.dropInitialAtExit(loopFn, f, r.Results[errRes]); dropped && len(r.Block().Instrs) > 0 && !ReachableAvoiding(r, nil)(r.Results[errRes].(*ssa.Phi).Block().Instrs[0]) {
+			leaves = nil
+			for i, e := range vals {
+				leaves = append(leaves, w.Leaves(e, preds[i].Instrs[len(preds[i].Instrs)-1])...)
+			}
+		}
+		for _, lf := range leaves {
 			if w.NonNil(lf.Val, lf.Facts) {
 				c.Ok("R2.nonnil", "Sign|returned error "+w.Short(lf.Val), w.Pos(r.Pos()), "certainly non-nil")
 				continue
@@ -395,6 +404,19 @@ func runC17Core(c *Ctx, withBackoff bool) {
 	}
 	if nStores == 0 {
 		c.Ok("R1.request", "package crypki|no store through a request pointer", "-", "census over all functions of the package")
+	}
+	// ... and nothing that shares storage with the request (a principal list read off it, a part handed to a helper) is
+	// rearranged or overwritten in place on Sign's tree
+	isReq := func(v ssa.Value) bool {
+		ptr, ok := v.Type().Underlying().(*types.Pointer)
+		return ok && strings.HasSuffix(ptr.Elem().String(), "SSHCertificateSigningRequest")
+	}
+	muts := w.aliasMutations(w.Tree(sign), isReq)
+	for _, mu := range muts {
+		c.Bad("R1.request", shortFn(mu.fn)+"|in-place write to data of the signing request", w.Pos(mu.at.Pos()), "storage shared with the caller's signing request is modified: "+mu.what)
+	}
+	if len(muts) == 0 {
+		c.Ok("R1.request", "Sign tree|nothing sharing storage with the request is written in place", w.FnPos(sign), "alias flow from the request through field loads, getters, reslicing and helpers; stores, map updates and in-place library calls")
 	}
 	if perReqParam >= 0 {
 		stub := false
@@ -676,7 +698,7 @@ func runC17Backoff(c *Ctx) {
 			var minCall *ssa.Call
 			var other ssa.Value
 			for i, op := range []ssa.Value{mul.X, mul.Y} {
-				if cv, ok := w.canon(bf, op).(*ssa.Call); ok && calleeName(cv) == "math.Min" {
+				if cv, ok := w.canon(bf, op).(*ssa.Call); ok && (calleeName(cv) == "math.Min" || calleeName(cv) == "builtin:min" && len(cv.Call.Args) == 2) {
 					minCall = cv
 					other = []ssa.Value{mul.Y, mul.X}[i]
 				}
